@@ -163,7 +163,9 @@ func (s *LinearState) Add(ctx *Context, id string, x Map) (string, error) {
 		return id, err
 	}
 
-	bs, err := json.Marshal(&x)
+	// Persist the prepared fact (absolute 'expires', etc.), which
+	// is what we keep in memory, not the raw input.
+	bs, err := json.Marshal(&m)
 	if err != nil {
 		return id, err
 	}
